@@ -78,6 +78,37 @@ def check_shared_default(depth, res, runner_name):
         res.fail(kind="oracle", function="compute_input_spec", what=f"input spec differs at depth {depth}: flat {flat.inputs.required}/{flat.inputs.optional}, nested {g.inputs.required}/{g.inputs.optional}", runner=runner_name, replay=rep)
 
 
+def check_sibling_wrappers(depth, res, runner_name):
+    """Several nodes DERIVED from one wrapper of a graph (renamed differently, one with a parallel input swap), used side by side:
+    each must behave like its own inlined copy of the inner nodes - a derivation of one sibling must not reach another."""
+    from hypergraph import Graph, node
+    from harness.core import run_sync, run_async, set_case
+    set_case("C05", {"sibling_wrappers": depth}, runner_name)
+    run = run_sync if runner_name == "sync" else run_async
+
+    def mk_sub(out):
+        @node(output_name=out)
+        def sub(a, k):
+            return a - k
+        return sub
+
+    inner = Graph([mk_sub("d")], name="stage")
+    for d in range(depth):
+        inner = Graph([inner.as_node()], name=f"stage_w{d}")
+    base = inner.as_node()
+    fwd = base.with_name("fwd").with_outputs(d="d_fwd")
+    rev = base.with_name("rev").with_inputs(a="k", k="a").with_outputs(d="d_rev")
+    again = base.with_name("plain").with_outputs(d="d_plain")   # derived AFTER the swap of its sibling
+    nested = Graph([fwd, rev, again])
+    out = run(nested, {"a": 10, "k": 3})
+    want = {"d_fwd": 7, "d_rev": -7, "d_plain": 7}
+    res.case(repr(("sibling_wrappers", depth, runner_name)), nontrivial=True, sample={"depth": depth, "runner": runner_name, "nested": out})
+    rep = {"harness": "C05", "spec": {"sibling_wrappers": depth}, "runner": runner_name}
+    if out["status"] != "completed" or {k: out["values"].get(k) for k in want} != {k: repr(v) for k, v in want.items()} and {k: out["values"].get(k) for k in want} != want:
+        res.fail(kind="oracle", function="GraphNode derivations (rename history of sibling wrappers)", runner=runner_name, replay=rep,
+                 what=f"three wrappers derived from one (fwd, rev with swapped inputs, plain) at depth {depth}: got {out['status']} {out['values']}, the inlined nodes give {want}")
+
+
 def run(tier, seed, functions):
     n = 200 if tier == "quick" else 3000
     res = Result("C05", "random DAGs (<=4 nodes) x dependency-closed groups wrapped as a nested graph node (depth 1..2) x inner/outer bindings x wrapper rename histories "
@@ -91,6 +122,7 @@ def run(tier, seed, functions):
     for depth in (1, 2, 3):
         for r in ("sync", "async"):
             check_shared_default(depth, res, r)
+            check_sibling_wrappers(depth - 1, res, r)
     return res
 
 
@@ -98,6 +130,8 @@ def replay(rep):
     res = Result("C05", "", {})
     if "shared_default" in rep["spec"]:
         check_shared_default(rep["spec"]["shared_default"], res, rep["runner"])
-        return [f["what"] for f in res.failures]
-    check_spec(rep["spec"], res, rep["runner"])
+    elif "sibling_wrappers" in rep["spec"]:
+        check_sibling_wrappers(rep["spec"]["sibling_wrappers"], res, rep["runner"])
+    else:
+        check_spec(rep["spec"], res, rep["runner"])
     return [f["what"] for f in res.failures]
